@@ -252,9 +252,12 @@ fn write_file_contents<'data, A: Arch<Platform = Elf>>(
 
     let mut writable_buckets = split_buffers_by_alignment(&mut section_buffers, layout);
     let groups_and_buffers = split_output_by_group(layout, &mut writable_buckets);
+    // Collect the per-group results in group order rather than stopping at whichever error rayon
+    // sees first, so that with several failing groups the reported error doesn't depend on
+    // scheduling.
     groups_and_buffers
         .into_par_iter()
-        .try_for_each(|(group, mut buffers)| -> Result {
+        .map(|(group, mut buffers)| -> Result {
             verbose_timing_phase!("Write group");
 
             #[cfg(wild_verif)]
@@ -283,7 +286,10 @@ fn write_file_contents<'data, A: Arch<Platform = Elf>>(
                 .validate_empty(&group.mem_sizes)
                 .with_context(|| format!("validate_empty failed for {group}"))?;
             Ok(())
-        })?;
+        })
+        .collect::<Vec<Result>>()
+        .into_iter()
+        .collect::<Result>()?;
 
     for (output_section_id, _) in layout.output_sections.ids_with_info() {
         let relocations = layout
